@@ -15,6 +15,8 @@ unsigned g_eq_wit;                  /* ghost witness index (operator==) */
 #define SQ_ASSERT(e)  __CPROVER_assert((e), "assert() of the real code")
 #define SQ_AXIOM(e)   __CPROVER_assert((e), "SQUIDS_COMPILER_ASSUME axiom must be true")
 #define SQ_ISNAN(a)   __CPROVER_isnand(a)
+#define SQ_MIN(a,b) ((a)<(b)?(a):(b))
+#define SQ_MAX(a,b) ((a)>(b)?(a):(b))
 #define SQ_SAME(a,b)  (((a)==(b)) || (SQ_ISNAN(a) && SQ_ISNAN(b)))
 
 double nondet_double(void);
